@@ -45,9 +45,27 @@ def parseOptHeader (dec : Bytes → Option V) (r : Req) (n : Name) : Except Err 
     | none => .error .invalidHeader
   | _ :: _ :: _ => .error .duplicateHeader
 
-/-- `parse_list_header`: every header line of the name is one element -/
+/-- `u8::is_ascii_whitespace` -/
+def isAsciiWs (b : UInt8) : Bool := b == 32 || b == 9 || b == 10 || b == 12 || b == 13
+
+/-- `<[u8]>::trim_ascii` -/
+def trimAscii (b : Bytes) : Bytes := ((b.dropWhile isAsciiWs).reverse.dropWhile isAsciiWs).reverse
+
+/-- `slice.split(|&b| b == b',')` -/
+def splitComma : Bytes → List Bytes
+  | [] => [[]]
+  | c :: cs =>
+    if c == 44 then [] :: splitComma cs
+    else match splitComma cs with
+      | [] => [[c]]
+      | p :: ps => (c :: p) :: ps
+
+/-- the items of one header line: split at commas, trimmed, empty items skipped -/
+def lineItems (v : Bytes) : List Bytes := ((splitComma v).map trimAscii).filter (fun i => !i.isEmpty)
+
+/-- `parse_list_header`: a comma-separated list, possibly spread over several header lines -/
 def parseListHeader (dec : Bytes → Option V) (required : Bool) (r : Req) (n : Name) : Except Err (List V) :=
-  match (getAll r.headers n).mapM dec with
+  match ((getAll r.headers n).flatMap lineItems).mapM dec with
   | none => .error .invalidHeader
   | some l => if required && l.isEmpty then .error .missingHeader else .ok l
 
